@@ -1,7 +1,7 @@
 (* C18 -- Keyspace region planning is exact on every input.
    Property theorems only; every proof is `exact <lemma>`.  Model: Model/Trie.v (the go-libdht
    trie as it behaves) and Model/Keyspace.v (transcriptions of provider/internal/keyspace);
-   lemmas: Proofs/Keyspace{Base,Proofs,Alloc,Covered,Trie,Subtract,Coalesce,Next,Gaps,Regions,Assign,Remove}.v.
+   lemmas: Proofs/Keyspace{Base,Proofs,Alloc,Covered,Trie,Subtract,Coalesce,Next,Gaps,GapsOrder,Regions,Assign,Remove}.v.
 
    Every theorem is for ALL tries that are well formed ([wf]: every leaf lies on the path spelled
    by its key and every inner node holds a key; theorems 13 and the [wf] conclusions of 4, 7, 8,
@@ -16,7 +16,7 @@
 From Verif.Lib Require Import GoSem Bits.
 From Verif.Model Require Import Trie Keyspace.
 From Verif.Proofs Require Import KeyspaceBase KeyspaceProofs KeyspaceAlloc KeyspaceCovered KeyspaceTrie
-  KeyspaceSubtract KeyspaceCoalesce KeyspaceNext KeyspaceGaps KeyspaceRegions KeyspaceAssign KeyspaceRemove.
+  KeyspaceSubtract KeyspaceCoalesce KeyspaceNext KeyspaceGaps KeyspaceRegions KeyspaceAssign KeyspaceRemove KeyspaceGapsOrder.
 From Coq Require Import Permutation Sorted.
 
 (* 1. AllocateToKClosest.  [alloc_ok r items dests pairs]: there is, for every item, a list of
@@ -165,6 +165,14 @@ Theorem c18_gaps_exact_when_effective :
     exists g, trie_gaps t target order = Ok g /\ forall x, In x g <-> is_gap (keys_of t) target x.
 Proof. exact @gaps_exact_when_effective. Qed.
 Print Assumptions c18_gaps_exact_when_effective.
+
+(* (f) for every target the gaps are returned sorted by the order (keys no longer than the order). *)
+Theorem c18_gaps_sorted :
+  forall (D : Type) (t : trie D) (target order : bits) (g : list bits),
+    wf t -> height t <= length order -> (forall k, In k (keys_of t) -> length k <= length order) ->
+    trie_gaps t target order = Ok g -> StronglySorted (ord_before order) g.
+Proof. exact @gaps_sorted. Qed.
+Print Assumptions c18_gaps_sorted.
 
 Theorem c18_gaps_within_target_refuted :
   (wf f13_t1 /\ trie_gaps f13_t1 [false; false] [false; false; false] = Ok [[false]] /\
